@@ -30,7 +30,7 @@ func WriteCorpus() {
 	for _, l := range []string{"builder", "bufiowriter", "globalstructx", "globalarrayx", "globalmapx", "globalptrx", "globalptrstrx", "globalsliceelemx", "globalchanx"} {
 		chain("C01/"+l, l)
 	}
-	chain("C01/methodvalue-then-call", "methodvalue", "idcall")
+	chain("C01/closure-pairs", "methodvalue", "methodvalueptr")
 	chain("C01/field-sensitive-pairs", "sprintf", "sprint")
 	chain("C02/valerrfall", "valerrfall")
 	chain("C03/stringsmap", "stringsmap")
